@@ -46,3 +46,14 @@ def write_obs_file(cases, path, fields=("pid", "prog", "obs")):
     with open(path, "w") as fh:
         json.dump({"cases": [{k: c[k] for k in fields} for c in cases]}, fh)
     return path
+
+
+def SPEC_FILES():
+    return sorted(os.path.join(SPEC, f) for f in os.listdir(SPEC) if f.endswith(".tla"))
+
+
+def HARNESS_FILES():
+    out = []
+    for d, _dirs, files in os.walk(HARNESS):
+        out += [os.path.join(d, f) for f in files if f.endswith(".py")]
+    return sorted(out)
